@@ -20,6 +20,11 @@
 static struct buddy_state arena_pool[NA + 1];
 static unsigned arena_used;
 static unsigned char ck_pool[NLOGS + 1][4096];
+#ifdef C5_ALLOC
+#include "mm/buddy/ckpt.h"
+#include "mm/buddy/multi.h"
+static unsigned char ck_exact[offsetof(struct mm_checkpoint, chkps) + sizeof(struct buddy_state *) + offsetof(struct buddy_checkpoint, base_mem) + C5_ALLOC];
+#endif
 static unsigned ck_used;
 static void *released[8];
 static unsigned n_released;
@@ -29,6 +34,11 @@ void *malloc(size_t n)
 		__CPROVER_assert(arena_used <= NA, "C12.harness arena pool large enough");
 		return &arena_pool[arena_used++];
 	}
+#ifdef C5_ALLOC
+	/* the checkpoint buffer is an object of EXACTLY the accounted size: any byte written past it is a bounds violation */
+	if(n == sizeof(ck_exact))
+		return ck_exact;
+#endif
 	__CPROVER_assert(n <= sizeof(ck_pool[0]) && ck_used <= NLOGS, "C12.harness checkpoint pool large enough");
 	return ck_pool[ck_used++];
 }
@@ -226,6 +236,9 @@ void h_rs_calloc(void)
 	VIN(size_t, nmemb);
 	VIN(size_t, size);
 	VIN(uint32_t, k);
+	/* element sizes are sampled (1, 2, 3, 8, 2^32, SIZE_MAX) because a symbolic 64-bit divisor is out of reach of the
+	 * SAT back end; the element count is fully symbolic */
+	VASSUME(size == 0 || size == 1 || size == 2 || size == 3 || size == 8 || size == ((size_t)1 << 32) || size == SIZE_MAX);
 	unsigned char *p = rs_calloc(nmemb, size);
 	bool overflow = size != 0 && nmemb > SIZE_MAX / size;
 	if(overflow || nmemb * size > B_TOTAL || nmemb * size == 0)
@@ -327,4 +340,73 @@ void h_restore_scan(void)
 	VASSERT(n_released == n_logs - 1 - sel, "C05.restore_scan nothing else is released");
 	VCANARY("h_restore_scan reachable");
 	VCOVER(n_logs == 3 && sel == 1 && in_ref[1] < target, "h_restore_scan covers a rollback point strictly between two checkpoints");
+}
+
+#ifdef C5_ALLOC
+/* checkpoint sizing (C11 anchor): one arena whose live blocks sum to C5_ALLOC bytes; the buffer handed out by the
+ * allocator stub has exactly full_ckpt_size bytes, so writing one byte too many is a bounds violation */
+void h_ckpt_take_exact(void)
+{
+	MM_SETUP();
+	VIN(array_count_t, ref);
+	VASSUME(n_ar == 1 && b_alloc_bytes(arena_pool[0].longest) == C5_ALLOC);
+	VASSERT(S->full_ckpt_size == sizeof(ck_exact), "C11.take the accounted size is header + per-arena header + live bytes + end marker");
+	uint8_t g_lon = arena_pool[0].longest[gn];
+	model_allocator_checkpoint_take(S, ref);
+	struct mm_checkpoint *c = S->logs.items[0].c;
+	VASSERT((void *)c == (void *)ck_exact, "C11.take the checkpoint buffer is requested with exactly the accounted size");
+	VASSERT(array_count(S->logs) == 1 && S->logs.items[0].ref_i == ref && c->ckpt_size == sizeof(ck_exact), "C05.take the log gains exactly (ref_i, checkpoint)");
+	struct buddy_checkpoint *bc = (struct buddy_checkpoint *)c->chkps;
+	VASSERT(bc->orig == &arena_pool[0] && bc->longest[gn] == g_lon, "C05.take the record of the arena carries its identity and its tree");
+	const struct buddy_state *end_marker;
+	memcpy(&end_marker, ck_exact + sizeof(ck_exact) - sizeof(end_marker), sizeof(end_marker));
+	VASSERT(end_marker == NULL, "C05.take the end marker (orig == NULL) is the last word of the buffer");
+	VASSERT(arena_pool[0].longest[gn] == g_lon, "C05.take the arena is not modified by a checkpoint");
+	VCANARY("h_ckpt_take_exact reachable");
+}
+#endif
+
+/* restore across arenas: the checkpoint holds one arena; a second arena may have been created after it */
+void h_restore_multi(void)
+{
+	MM_SETUP();
+	VIN_ARR(uint8_t, ck_lon, NLON);
+	VIN_ARR(unsigned char, ck_mem, B_TOTAL);
+	VIN(bool, grown);
+	VASSUME(n_ar == 1 && b_wf_lon(ck_lon));
+	/* a checkpoint of arena 0 taken earlier (shape as checkpoint_full_take writes it, see C05.ckpt_take) */
+	struct mm_checkpoint *c = (struct mm_checkpoint *)ck_pool[0];
+	ck_used = 1;
+	uint32_t alloc = b_alloc_bytes(ck_lon);
+	c->ckpt_size = MM_BASE + CK_HDR + alloc;
+	struct buddy_checkpoint *bc = (struct buddy_checkpoint *)c->chkps;
+	bc->orig = &arena_pool[0];
+	for(uint32_t i = 0; i < NLON; i++)
+		bc->longest[i] = ck_lon[i];
+	for(uint32_t i = 0; i < B_TOTAL; i++)
+		if(i < alloc)
+			bc->base_mem[i] = ck_mem[i];
+	struct buddy_checkpoint *endm = (struct buddy_checkpoint *)((char *)bc + CK_HDR + alloc);
+	endm->orig = NULL;
+	log_store[0].ref_i = 0;
+	log_store[0].c = c;
+	S->logs.count = 1;
+	if(grown) { /* an arena created by an undone event, with whatever it allocated */
+		arena_ptr[1] = &arena_pool[1];
+		S->buddies.count = 2;
+		arena_used = 2;
+		for(uint32_t i = 0; i < NLON; i++)
+			arena_pool[1].longest[i] = in_lon[NLON + i];
+		VASSUME(b_wf(&arena_pool[1]));
+	}
+	array_count_t r = model_allocator_checkpoint_restore(S, 7);
+	VASSERT(r == 0, "C05.restore_multi the only checkpoint is used");
+	VASSERT(arena_pool[0].longest[gn] == ck_lon[gn], "C05.restore_multi the checkpointed arena gets its own record back (set of live blocks)");
+	if(b_live(ck_lon, gn) && b_off(gn) <= gx && gx < b_off(gn) + (1U << b_lev(gn)))
+		VASSERT(arena_pool[0].base_mem[gx] == ck_mem[b_ckpt_pos(ck_lon, gn, gx)], "C05.restore_multi every byte of every live block is restored");
+	if(grown)
+		VASSERT(arena_pool[1].longest[gn] == b_lev(gn), "C05.restore_multi allocations made in an arena created after the checkpoint are gone (arena re-initialised)");
+	VASSERT(INV_MM(S), "C05.restore_multi the size accounting is exact again, including the arena added after the checkpoint (else the NEXT checkpoint overflows)");
+	VCANARY("h_restore_multi reachable");
+	VCOVER(grown, "h_restore_multi covers growth to a second arena after the checkpoint");
 }
